@@ -614,6 +614,12 @@ var c13Directed = []string{
 	"embedAll union prefix: m:5431:61:str str m:5432:c3a9:str str )",
 	"interface union prefix: m:5431:6162:str str m:5432:62:str str m:5433:63:str struct join:2c f:78:78 str f:79:79 str ) )",
 	"embedAll list? union prefix: m:5432:7a:str str m:5433:79:str str )",
+	// containers of structs whose optional / nullable fields are themselves structs or unions (held by pointer in the
+	// generated code): several elements with the field present, over every route
+	"embedAll list struct map fo:61:61 struct map f:78:78 int f:79:79 str ) fn:62:62 struct map f:7a:7a int ) f:63:63 int )",
+	"interface map struct map fon:61:61 struct map f:78:78 int ) fo:62:62 union keyed m:5431:69:int int m:5432:73:str str ) )",
+	"embedAll list struct map fo:61:72 union kinded m:5431:5431:int int m:5432:5432:str str ) fo:62:62 struct tuple f:78:78 int f:79:79 int ) )",
+	"interface list? struct tuple f:61:61 int fn:62:62 struct map f:78:78 str ) )",
 }
 
 func runC13(c *core.Ctx) error {
